@@ -55,7 +55,10 @@ pub fn output_tokens_for_impl(
         .collect::<syn::Result<Vec<_>>>()?;
     let sub_attributes = analyze_sub_attributes(&attrs);
 
-    let trait_generics = generics_analyzer.into_trait_generics();
+    // The implemented trait is written by hand and takes `EntraitT` only: generic
+    // parameters of the functions stay on the methods (see SignatureConverter).
+    drop(generics_analyzer);
+    let trait_generics = analyze_generics::GenericsAnalyzer::new().into_trait_generics();
 
     let fn_input_mode = crate::input::FnInputMode::ImplBlock(&self_ty);
     let trait_dependency_mode =
